@@ -31,6 +31,32 @@ Theorem C10_sequence_balanced : forall ss, all_feasible ss = true ->
 Proof. exact sequence_balanced. Qed.
 Print Assumptions C10_sequence_balanced.
 
+(* The constructor fails (only the signing constructors can: the share is missing, corrupt or
+   unreadable, or the FROST tweak is malformed): the lock it took to read the share is free again,
+   locks = unlocks, the read happened under the lock ... *)
+Theorem C10_constructor_fails_gives_lock_back : forall k, feasible k ConstructorFails = true ->
+  mrun false (session_events New k ConstructorFails) = MOk false /\
+  count is_L (session_events New k ConstructorFails) = count is_U (session_events New k ConstructorFails) /\
+  guarded k false false (session_events New k ConstructorFails) = true.
+Proof. exact constructor_fails_safe. Qed.
+Print Assumptions C10_constructor_fails_gives_lock_back.
+
+(* ... a signing request on a store without a readable share can end in no other way ... *)
+Theorem C10_unreadable_signing_fails : forall sh k o, sh <> Readable -> is_signing k = true ->
+  feasible_in sh k o = true -> o = ConstructorFails.
+Proof. exact unreadable_signing_fails. Qed.
+Print Assumptions C10_unreadable_signing_fails.
+
+(* ... and for ARBITRARY sequences of sessions, each finding the share file in an arbitrary state
+   (readable, missing, corrupt, unreadable): no fatal unlock, no session finds the lock taken by a
+   predecessor, the lock is free at the end, locks = unlocks. *)
+Theorem C10_sequence_any_store_state_safe : forall (ss : list (share * (kind * outcome))),
+  all_feasible_in ss = true ->
+  mrun false (sessions_events New (map snd ss)) = MOk false /\
+  count is_L (sessions_events New (map snd ss)) = count is_U (sessions_events New (map snd ss)).
+Proof. exact sequence_in_safe. Qed.
+Print Assumptions C10_sequence_any_store_state_safe.
+
 (* exclusive_while_running + signing_reads_under_lock: the per-session ledger is guarded ... *)
 Theorem C10_guarded : forall k o, feasible k o = true ->
   guarded k false false (session_events New k o) = true.
@@ -102,5 +128,9 @@ Example C10_nonvacuous :
   session_events New EcdsaKeygen NeverSilent = [] /\
   session_events New FrostResharing Refused = [L; Get; U] /\
   session_events New EcdsaSigning RanFailed = [L; Get; U; RunBegin; RunEnd] /\
-  all_feasible [(FrostKeygen, NeverTimeout); (EcdsaSigning, ParamsRejected)] = true.
+  all_feasible [(FrostKeygen, NeverTimeout); (EcdsaSigning, ParamsRejected)] = true /\
+  session_events New FrostSigning ConstructorFails = [L; Get; U] /\
+  all_feasible_in [(Missing, (FrostSigning, ConstructorFails)); (Missing, (FrostKeygen, NeverTimeout));
+                   (Corrupt, (EcdsaResharing, Refused)); (Readable, (EcdsaSigning, RanFailed))] = true /\
+  feasible_in Missing EcdsaSigning RanFailed = false /\ feasible EcdsaResharing ConstructorFails = false.
 Proof. vm_compute. repeat split. Qed.
